@@ -1,8 +1,39 @@
 """C02 — detailed placement keeps the placement legal at every exposed state."""
 VARIANT = "san"
 RULE = "see stats"
-PARTIAL = []
-ASSUMPTIONS = []
-LEVEL_TEXT = "wip"
-LEVEL_NOTE = "wip"
-TECHNIQUE = "wip"
+PARTIAL = [
+    "inv_init: only `fromIspdCircuit c = ok s -> check s` is proved (`inv_init_partial`); that the constructed state "
+    "satisfies the full `Inv` (link symmetry, y on row, positive widths) and has every optimised cell placed is stated "
+    "(`inv_init_full_statement`) and evaluated by the driver (decidable `Inv`) on every explored instance, not proved for all circuits",
+    "inv_legal: `inv_legal_partial` gives per placed cell: valid allowed row, y on the row, valid orientation, no overlap with "
+    "its predecessor/successor, row ends for the first/last cell; non-overlap of *any* two cells of a row (transitivity along "
+    "the links) and legality of the exported circuit against `computeRows` are stated (`inv_legal_full_statement`), supported by "
+    "the direct oracle vc::checkLegal in every callback, not proved",
+    "clause 'never fails on a circuit that legalization alone accepts' (`fromIspdCircuit` succeeds on every legal placement, and "
+    "canPlace succeeds inside swap/insert) is not proved; direct oracle only (placeDetailed must neither throw nor abort whenever "
+    "legalize alone succeeded and returned a legal placement)",
+    "lemon NetworkSimplex returning potentials that satisfy the arc constraints is assumed: the model's `shift` re-checks every "
+    "update, the code does not; a violation would be caught on explored runs (history replay + legality oracle), not excluded for all",
+    "that the optimiser's loops only perform the modelled primitive moves is tied by the hook-H3 history replay on explored runs, "
+    "not proved; RowReordering's contract (registered cells are placed optimised cells, predecessors stay placed) is checked "
+    "dynamically by the model (`Err.guard`) rather than derived from addCells",
+]
+ASSUMPTIONS = [
+    "lemon::NetworkSimplex returns feasible potentials (shift passes)",
+    "boost::polygon row/obstacle difference behaves as the 1-D interval model of Model/Freespace.lean (C15 ties it)",
+    "C++ int arithmetic modelled as unbounded Int; std::vector as total functions read only inside their size on Inv states",
+    "std::sort of rows / of the cells of a row: keys are distinct on the domain (disjoint rows, positive widths)",
+]
+LEVEL_TEXT = ("Lean 4 theorems over an executable model of DetailedPlacement's doubly linked row lists: unplace/place (pointer "
+              "surgery included), swap (3 branches), insert (Int.tdiv midpoints), checked shift and reorder write-back all preserve "
+              "the decidable invariant Inv (= every test of DetailedPlacement::check() + link symmetry + orientation != INVALID + y "
+              "on row + positive widths); hence every state reachable by any move sequence with arbitrary arguments satisfies it "
+              "(inv_run); ignored cells (multi-row cells, macros, fixed cells) keep x/y/orientation along every history "
+              "(ignored_frame).  Construction and whole-circuit legality are partial (see partial_clauses).  The model is tied to the "
+              "C++ by a differential stream on the public API (state compared after every operation) and, with hook H3, by replaying "
+              "the optimiser's move history of real Circuit::placeDetailed runs; the direct oracle checks legality in every Detailed "
+              "callback and on return, that ignored cells do not move, and that placeDetailed never fails after legalize succeeded")
+LEVEL_NOTE = ("Trusted: Lean kernel (propext/Classical.choice/Quot.sound), the hand-written model's tie to the code (differential, "
+              "bounded by the generator), lemon NetworkSimplex, boost::polygon via the Freespace model, the harness' legality oracle.")
+TECHNIQUE = "Lean 4 proof (invariant over move histories) + primitives correspondence + history replay + end-to-end legality oracle"
+TIMEOUT = {"quick": 3600, "thorough": 6 * 3600, "search": 3 * 3600}
